@@ -448,7 +448,8 @@ class Key(metaclass=InlineDocstring):
         """Sign a raw sequence of bytes.
 
         :param message: sequence of bytes, raw format or hexadecimal notation
-        :param generic: do not specify elliptic curve if set to True
+        :param generic: do not specify elliptic curve if set to True (not applicable to BLS: there is no generic form
+            for 96-byte signatures)
         :returns: signature in base58 encoding
         """
         encoded_message = scrub_input(message)
@@ -477,7 +478,7 @@ class Key(metaclass=InlineDocstring):
         else:
             raise ValueError(f'Invalid or unsupported curve type: `{self.curve!r}`.')
 
-        if generic:
+        if generic and self.curve != b'BL':
             prefix = b'sig'
         else:
             prefix = self.curve + b'sig'
